@@ -150,6 +150,8 @@ def c01_runs(tier):
                     runs.append(("san", ["--mode", mode, "--mtu", str(m), "--wifi", str(wifi), "--fill", str(fill), "--part", str(part), "--nparts", str(np_)]))
         runs.append(("san", ["--mode", "esp32", "--mtu", str(m)]))
     runs.append(("cov", ["--mode", "cov", "--mtu", "576"]))
+    runs.append(("san", ["--mode", "flood", "--mtu", "576", "--fill", "0"]))
+    runs.append(("san", ["--mode", "flood", "--mtu", "576", "--fill", "255", "--wifi", "1"]))
     runs.append(("daemon", ["--mode", "daemon", "--mtu", "1500"]))
     runs.append(("daemon", ["--mode", "daemon", "--mtu", "576", "--fill", "255"]))
     if th:
@@ -163,6 +165,8 @@ def c18_runs(tier):
     runs += [("san", ["--mode", "faults", "--mtu", "576", "--wifi", "1", "--part", str(i), "--nparts", "4"], 0) for i in range(4)]
     np_ = 8 if th else 4
     runs += [("plain", ["--mode", "equiv", "--mtu", "1500", "--part", str(i), "--nparts", str(np_)], 1) for i in range(np_)]
+    # an MTU other than the 1500 fallback: state derived from a failed MTU getter must not survive the Reset
+    runs += [("plain", ["--mode", "equiv", "--mtu", "576", "--wifi", "1", "--part", str(i), "--nparts", str(np_)], 1) for i in range(np_)]
     return runs
 
 
@@ -219,7 +223,7 @@ PROPS = {
     "C01": {
         "engine": "E4",
         "builds": {"san": {"flavour": "san", "sources": SANMC + ["checks/c01.c"], "repo_extra": ["os/esp32/daemon/lltd_esp32.c"],
-                           "defs": ["-I", REPO + "/os/esp32/daemon"], "modes": ["linux", "darwin", "esp32"]},
+                           "defs": ["-I", REPO + "/os/esp32/daemon"], "modes": ["linux", "darwin", "esp32", "flood"]},
                    "cov": {"flavour": "tsanabi", "sources": ["mc/world.c", "mc/wire.c", "mc/report.c", "mc/sigma.c", "mc/darwin.c", "mc/tsan_hooks.c", "checks/cov.c"],
                            "repo_extra": ["os/esp32/daemon/lltd_esp32.c"], "defs": ["-I", REPO + "/os/esp32/daemon"], "modes": ["cov"]},
                    "daemon": {"flavour": "san", "sources": ["mc/report.c", "mc/forkrun.c", "mc/wire.c", "checks/c01_daemon.c"],
